@@ -325,6 +325,26 @@ def read_batches(md, name):
 
 
 def observe(L, params, via_vars=False, lazy=False, kind=None, mods=NOMODS):
+    """one rendering, observed; a `Hang` is only reported when a second attempt - fresh sequence, the collector off, ten
+    times the CPU allowance for the first ones - does not return either (the timer counts the collector's passes over the harness's own
+    objects as CPU time of the rendering: 4 such false hangs in 1.9 million renderings of the thorough tier, seed 5)"""
+    obs = _observe(L, params, via_vars, lazy, kind, mods, None)
+    if obs.get('exc', '').startswith('Hang'):
+        import gc
+        gc.collect()
+        was = gc.isenabled()
+        gc.disable()
+        try:
+            obs = _observe(L, params, via_vars, lazy, kind, mods, 30.0 if HANGS[0] < 2 else 3.0)
+        finally:
+            if was:
+                gc.enable()
+        if obs.get('exc', '').startswith('Hang'):
+            HANGS[0] += 1
+    return obs
+
+
+def _observe(L, params, via_vars, lazy, kind, mods, limit):
     """Render a batched dtml-in over a sequence of length L with the real code and return
     the observation dict."""
     kind = kind or ('iter' if lazy else 'list')
@@ -398,7 +418,8 @@ def observe(L, params, via_vars=False, lazy=False, kind=None, mods=NOMODS):
     old = signal.signal(signal.SIGVTALRM, _alarm)
     # a rendering takes milliseconds; one that has not returned after 2 s is taken not to terminate (once a few
     # have been seen the others are given less time, so a change that makes many of them hang cannot stall the check)
-    limit = 3.0 if HANGS[0] < 3 else 1.0
+    if limit is None:
+        limit = 3.0 if HANGS[0] < 3 else 1.0
     signal.setitimer(signal.ITIMER_VIRTUAL, limit)
     try:
         if render is not None:
@@ -406,7 +427,6 @@ def observe(L, params, via_vars=False, lazy=False, kind=None, mods=NOMODS):
         else:
             out = shared_template(src)(seq=seq, rec=rec, **kw)
     except Hang:
-        HANGS[0] += 1
         return {'exc': 'Hang (no result after %.2f s of CPU time)' % limit, 'src': src}
     except Exception as e:  # noqa
         if policy is not None:
